@@ -54,6 +54,7 @@ pub fn prelude() -> Vec<Stmt> {
 
 /// (name, statement, global_only, uses_assign_binary) — leaf templates covering every
 /// statement kind and sub-form of the claimed grammar.
+#[derive(Clone)]
 pub struct Leaf {
     pub name: &'static str,
     pub stmt: Stmt,
@@ -72,6 +73,102 @@ fn gleaf(name: &'static str, stmt: Stmt) -> Leaf {
 fn nosema(mut l: Leaf) -> Leaf {
     l.sema = false;
     l
+}
+
+/// The grid leaves: every quantum statement form with every operand form, every declaration
+/// qualifier with every scalar type, every compound assignment operator with every target form.
+/// `sema` marks the combinations the analyser supports (used by C06).
+pub fn grid_leaves() -> Vec<Leaf> {
+    static GRID: std::sync::OnceLock<Vec<Leaf>> = std::sync::OnceLock::new();
+    GRID.get_or_init(build_grid).clone()
+}
+
+fn build_grid() -> Vec<Leaf> {
+    fn name(t: String) -> &'static str {
+        Box::leak(t.into_boxed_str())
+    }
+    let gc = |mods: Vec<Modifier>, name: &str, args: Option<Vec<Expr>>, operands: Vec<Operand>| Stmt::GateCall { mods, name: s(name), args, operands };
+    let mut v = Vec::new();
+    // (name, operand, analysable)
+    let operands: Vec<(&str, Operand, bool)> = vec![
+        ("id", opd("r"), true),
+        ("hw", Operand::Hw(s("$0")), true),
+        ("hw2", Operand::Hw(s("$12")), true),
+        ("idx", opd_i("q", 3), true),
+        ("idx_expr", Operand::Indexed(s("q"), vec![Index::List(vec![IndexItem::E(bin(BinOp::Add, id("a"), int(1)))])]), false),
+        ("idx_range", Operand::Indexed(s("q"), vec![Index::List(vec![IndexItem::Range(int(0), None, int(1))])]), false),
+        ("idx_range3", Operand::Indexed(s("q"), vec![Index::List(vec![IndexItem::Range(int(0), Some(int(2)), int(3))])]), false),
+        ("reg", opd("q"), true),
+    ];
+    for (on, o, osema) in &operands {
+        let forms: Vec<(&str, Stmt, bool)> = vec![
+            ("reset", Stmt::Reset(o.clone()), true),
+            ("measure_stmt", Stmt::ExprStmt(Expr::Measure(o.clone())), true),
+            ("measure_assign", Stmt::Assign { target: opd("k"), op: None, value: Expr::Measure(o.clone()) }, false),
+            ("measure_decl", Stmt::Decl { konst: false, ty: Ty::plain("bit"), name: s("w1"), init: Some(Expr::Measure(o.clone())) }, false),
+            ("barrier1", Stmt::Barrier(vec![o.clone()]), true),
+            ("barrier2", Stmt::Barrier(vec![opd("r"), o.clone()]), true),
+            ("delay", Stmt::Delay(Expr::Timing(s("10"), false, "ns"), vec![o.clone()]), true),
+            ("delay2", Stmt::Delay(id("d"), vec![o.clone(), opd("r")]), true),
+            ("call", gc(vec![], "h", None, vec![o.clone()]), true),
+            ("call_param", gc(vec![], "rx", Some(vec![flt("0.5")]), vec![o.clone()]), true),
+            ("call_U", gc(vec![], "U", Some(vec![int(1), int(2), int(3)]), vec![o.clone()]), true),
+            ("call_user", gc(vec![], "g1", None, vec![o.clone()]), true),
+            ("call_second", gc(vec![], "cx", None, vec![opd("r"), o.clone()]), true),
+            ("call_inv", gc(vec![Modifier::Inv], "h", None, vec![o.clone()]), true),
+            ("call_pow", gc(vec![Modifier::Pow(int(2))], "h", None, vec![o.clone()]), true),
+            ("call_ctrl", gc(vec![Modifier::Ctrl(None)], "x", None, vec![o.clone(), opd("r")]), true),
+            ("call_negctrl2", gc(vec![Modifier::NegCtrl(Some(int(2)))], "x", None, vec![opd("r"), o.clone(), opd_i("q", 1)]), true),
+        ];
+        for (fname, st, fsema) in forms {
+            v.push(Leaf { name: name(format!("grid/{}/{}", fname, on)), stmt: st, global_only: false, sema: *osema && fsema });
+        }
+    }
+    // declarations: qualifier x type
+    let types: Vec<(Ty, Expr)> = vec![
+        (Ty::plain("int"), int(1)),
+        (Ty::w("int", 8), int(1)),
+        (Ty::plain("uint"), int(1)),
+        (Ty::w("uint", 16), int(1)),
+        (Ty::plain("float"), flt("1.5")),
+        (Ty::w("float", 32), flt("1.5")),
+        (Ty::plain("angle"), flt("1.5")),
+        (Ty::w("angle", 8), flt("1.5")),
+        (Ty::plain("bool"), Expr::Bool(false)),
+        (Ty::plain("bit"), int(1)),
+        (Ty::w("bit", 4), Expr::Bits(s("\"0101\""))),
+        (Ty::plain("complex"), Expr::Timing(s("2.0"), true, "im")),
+        (Ty { base: "complex", width: Some(Box::new(Expr::Int(s("32")))) }, Expr::Timing(s("2.0"), true, "im")),
+        (Ty::plain("duration"), Expr::Timing(s("10"), false, "ns")),
+        (Ty::plain("stretch"), Expr::Timing(s("10"), false, "ns")),
+        (Ty { base: "int", width: Some(Box::new(bin(BinOp::Mul, int(2), id("c")))) }, int(1)),
+    ];
+    for (ti, (ty, lit)) in types.iter().enumerate() {
+        let tn = format!("{}{}", ty.base, if ty.width.is_some() { "_w" } else { "" });
+        let nm = |q: &str| s(&format!("w{}{}", q, ti));
+        v.push(Leaf { name: name(format!("grid/decl/{}#{}", tn, ti)), stmt: Stmt::Decl { konst: false, ty: ty.clone(), name: nm("p"), init: None }, global_only: false, sema: false });
+        v.push(Leaf { name: name(format!("grid/decl_init/{}#{}", tn, ti)), stmt: Stmt::Decl { konst: false, ty: ty.clone(), name: nm("i"), init: Some(lit.clone()) }, global_only: false, sema: false });
+        v.push(Leaf { name: name(format!("grid/decl_init_id/{}#{}", tn, ti)), stmt: Stmt::Decl { konst: false, ty: ty.clone(), name: nm("j"), init: Some(id("a")) }, global_only: false, sema: false });
+        v.push(Leaf { name: name(format!("grid/const/{}#{}", tn, ti)), stmt: Stmt::Decl { konst: true, ty: ty.clone(), name: nm("c"), init: Some(lit.clone()) }, global_only: false, sema: false });
+        v.push(Leaf { name: name(format!("grid/input/{}#{}", tn, ti)), stmt: Stmt::Io { input: true, ty: ty.clone(), name: nm("n") }, global_only: true, sema: false });
+        v.push(Leaf { name: name(format!("grid/output/{}#{}", tn, ti)), stmt: Stmt::Io { input: false, ty: ty.clone(), name: nm("o") }, global_only: true, sema: false });
+    }
+    // compound assignments: operator x target
+    let targets: Vec<(&str, Operand)> = vec![
+        ("id", opd("a")),
+        ("idx", opd_i("m", 0)),
+        ("idx_range", Operand::Indexed(s("m"), vec![Index::List(vec![IndexItem::Range(int(0), None, int(1))])])),
+    ];
+    for (tn, t) in &targets {
+        v.push(Leaf { name: name(format!("grid/assign/=/{}", tn)), stmt: Stmt::Assign { target: t.clone(), op: None, value: int(1) }, global_only: false, sema: false });
+        for op in BINOPS {
+            // the OpenQASM 3 compound assignment operators
+            if matches!(op, BinOp::Add | BinOp::Sub | BinOp::Mul | BinOp::Div | BinOp::Rem | BinOp::Pow | BinOp::BitAnd | BinOp::BitOr | BinOp::BitXor | BinOp::Shl | BinOp::Shr) {
+                v.push(Leaf { name: name(format!("grid/assign/{}=/{}", op.text(), tn)), stmt: Stmt::Assign { target: t.clone(), op: Some(op), value: id("b") }, global_only: false, sema: false });
+            }
+        }
+    }
+    v
 }
 
 pub fn leaves() -> Vec<Leaf> {
